@@ -1,4 +1,5 @@
 import F3.Model.Certs
+import F3.Model.CertsParse
 import F3.Spec.Certs
 import F3.Proofs.CertsDelta
 import F3.Proofs.CertsValidate
@@ -133,7 +134,8 @@ def start (t : Table) (n : Nat) (base : Option Tip) : VState := ⟨n, [], t, bas
 
 /-- **Soundness.** If validation accepts, the certificates form a valid run (`ValidRun`: every
 certificate is for the expected instance, has a well-formed non-empty chain starting at the head of
-its predecessor or at the caller's base, is signed over exactly its DECIDE payload by members with
+its predecessor or at the caller's base, is signed over exactly its DECIDE payload by DISTINCT members
+(`CertValid.signed`: the signer list is strictly increasing, so nobody is counted twice) with
 non-zero scaled power holding at least 2/3 of the table in force, and its delta yields the table it
 commits to), and the returned instance, chain and table are the ones reached by that run. -/
 theorem validate_sound (net : Nat) (t : Table) (n : Nat) (base : Option Tip) (cs : List Cert)
@@ -307,18 +309,45 @@ theorem honest_cert_accepted (net : Nat) (t nt : Table) (n : Nat) (base : Option
     (hinst : c.inst = n) (hcv : chainValid c.chain = true) (hne : c.chain ≠ [])
     (hbase : ∀ b, base = some b → ∃ h, c.chain.head? = some h ∧ Tip.eq b h = true)
     (hsc : F3.Power.scaled (t.map (·.power)) = some (sc, tot)) (hss : c.signers = some ss)
+    (hinc : ss.Pairwise (· < ·))
     (hmem : ∀ i ∈ ss, i < t.length ∧ 0 < sc.getD i 0) (hq : 3 * sumScaled sc ss ≥ 2 * (tot : Int))
     (hsig : c.sig = .agg (ss.map (fun i => (i, keyAt t i))) ⟨net, c.inst, 0, decidePhase, c.comm, c.pt, c.chain⟩)
     (hdelta : c.delta = makeDiff t nt) (hpt : c.pt = .table (canon nt)) :
     validateCerts net t n base [c] =
       ⟨u64 (n + 1), c.chain.tail, canon nt, none⟩ := by
   have hv : CertValid net t n base c (canon nt) :=
-    ⟨hinst, hcv, hne, hbase, ⟨sc, tot, ss, hsc, hss, hmem, hq, hsig⟩,
+    ⟨hinst, hcv, hne, hbase, ⟨sc, tot, ss, hsc, hss, hinc, hmem, hq, hsig⟩,
       by rw [hdelta]; exact apply_make t nt ht hnt, hpt⟩
   have hrun : ValidRun net (start t n base) [c] (advance (start t n base) c (canon nt)) :=
     ValidRun.cons hv (ValidRun.nil _)
   rw [validate_complete net t n base [c] _ hrun]
   simp [advance, start]
+
+/-- **No signer counts twice.** The signers of a valid certificate are pairwise distinct table
+indices (strictly increasing, as the iteration of the Go bitfield is), so the 2/3 of
+`CertValid.signed` is held by distinct members. In the Go code this is a property of the type of
+`cert.Signers` (a bitfield is a set); the model, whose certificates carry a list, enforces it
+(`VErr.signerOrder`, unreachable from decoded certificates). -/
+theorem valid_signers_distinct (net : Nat) (t : Table) (n : Nat) (base : Option Tip) (c : Cert)
+    (nt : Table) (h : CertValid net t n base c nt) :
+    ∃ ss, c.signers = some ss ∧ ss.Pairwise (· < ·) ∧ ss.Nodup := by
+  obtain ⟨_, _, ss, _, hss, hi, _⟩ := h.signed
+  exact ⟨ss, hss, hi, hi.imp (fun h => Nat.ne_of_lt h)⟩
+
+/-- a signer list that is not strictly increasing (in particular: one with a repeated index) is never
+accepted, whatever else the certificate contains -/
+theorem duplicate_signers_rejected (net : Nat) (t : Table) (n : Nat) (base : Option Tip) (c : Cert)
+    (ss : List Nat) (hss : c.signers = some ss) (hdup : ¬ ss.Pairwise (· < ·)) :
+    (validateCerts net t n base [c]).err ≠ none := by
+  intro h
+  obtain ⟨s', hrun, _⟩ := validate_sound net t n base [c] h
+  cases hrun with
+  | cons hv _ =>
+    obtain ⟨ss', hss', hi, _⟩ := valid_signers_distinct _ _ _ _ _ _ hv
+    rw [hss] at hss'
+    simp only [Option.some.injEq] at hss'
+    subst hss'
+    exact hdup hi
 
 /-! ### The executable oracle is the specification -/
 
@@ -358,6 +387,23 @@ example : validateCerts 1 Ex.t0 5 (some Ex.b0) [Ex.c5, Ex.c6] = ⟨7, [Ex.x1, Ex
 -- the second certificate signed by a single member (10922·… < 2/3): rejected, prefix reported
 example : validateCerts 1 Ex.t0 5 (some Ex.b0) [Ex.c5, Ex.mk 6 [Ex.x1, Ex.x2] Ex.t1 Ex.t1 [1]] =
     ⟨6, [Ex.x1], Ex.t1, some .noQuorum⟩ := by decide
+
+-- a member listed twice does not count twice: `[0, 0]` (which would sum to 2·32767 of 65535) is refused
+-- as "not a bitfield", the same member once is below the quorum, the honest certificate `c5` with the
+-- distinct signers `[0, 1]` is accepted (above)
+example : (validateCerts 1 Ex.t0 5 (some Ex.b0) [Ex.mk 5 [Ex.b0, Ex.x1] Ex.t0 Ex.t1 [0, 0]]).err =
+    some .signerOrder := by decide
+example : (validateCerts 1 Ex.t0 5 (some Ex.b0) [Ex.mk 5 [Ex.b0, Ex.x1] Ex.t0 Ex.t1 [0]]).err =
+    some .noQuorum := by decide
+example : (validateCerts 1 Ex.t0 5 (some Ex.b0) [Ex.mk 5 [Ex.b0, Ex.x1] Ex.t0 Ex.t1 [1, 0]]).err =
+    some .signerOrder := by decide
+example : (validateCerts 1 Ex.t0 5 (some Ex.b0) [Ex.c5]).err = none := by decide
+-- the log parser refuses such lists (string functions do not reduce in the kernel: the list-level
+-- function by `decide`, the text-level one by evaluation)
+example : Parse.bitfieldList [0, 0] = none ∧ Parse.bitfieldList [1, 0] = none ∧
+    Parse.bitfieldList [0, 1] = some [0, 1] ∧ Parse.bitfieldList [] = some [] := by decide
+#guard Parse.signers? "0,0" == none && Parse.signers? "0,1" == some (some [0, 1]) &&
+  Parse.signers? "-" == some (some []) && Parse.signers? "!" == some none
 
 -- wrong base for the first certificate, wrong payload (other network), unlinked second certificate
 example : (validateCerts 1 Ex.t0 5 (some Ex.x2) [Ex.c5]).err = some .baseMismatch := by decide
